@@ -145,7 +145,7 @@ deriving Repr, Inhabited
 inductive CtlKind where | select | sbo | dop | donr
 deriving DecidableEq, Repr
 
-inductive FreezeKind where | immediate | clear
+inductive FreezeKind where | immediate | clear | atTime
 deriving DecidableEq, Repr
 
 inductive BAction where | processed | ignoredByConfig | badHeaders | unsupported
@@ -419,6 +419,18 @@ def handleFreeze (a : Acc) (seq : Nat) (kind : FreezeKind) (hs : List ObjHdr) : 
   let (a, iin2) := hs.foldl (fun (p : Acc × Nat) h => let (a', i) := handleFreezeHeader p.1 kind h; (a', p.2 ||| i)) (a, 0)
   (a, emptySolicited seq iin2)
 
+/-- `handle_freeze_at_time`: a g50v2 header with exactly one object sets the timing, a header of another kind
+    is frozen only after one; the IIN2 results of all headers are accumulated -/
+def handleFreezeAtTime (a : Acc) (seq : Nat) (hs : List ObjHdr) : Acc × Resp :=
+  let r := hs.foldl (fun (p : Acc × Nat × Bool) h =>
+    if h.group = 50 ∧ h.var = 2 then
+      if h.a = 1 then (p.1, p.2.1, true) else (p.1, p.2.1 ||| iin2ParamError, p.2.2)
+    else if p.2.2 then
+      let (a', i) := handleFreezeHeader p.1 .atTime h
+      (a', p.2.1 ||| i, true)
+    else (p.1, p.2.1 ||| iin2ParamError, false)) (a, 0, false)
+  (r.1, emptySolicited seq r.2.1)
+
 def handleEnableDisable (a : Acc) (enable : Bool) (seq : Nat) (hs : List ObjHdr) : Acc × Resp :=
   if !a.1.cfg.unsolicited then (a, emptySolicited seq iin2NoFunc) else
   let (s, iin2) := hs.foldl (fun (p : OState × Nat) h =>
@@ -501,8 +513,8 @@ def handleNonRead (a : Acc) (func seq frameId : Nat) (hs : List ObjHdr) (raw : L
     else if func = 8 then let (a, _) := handleFreeze a seq .immediate hs; some (a, none)
     else if func = 9 then let (a, r) := handleFreeze a seq .clear hs; some (a, some r)
     else if func = 10 then let (a, _) := handleFreeze a seq .clear hs; some (a, none)
-    else if func = 11 then some (a, some (emptySolicited seq (if hs.isEmpty then 0 else iin2ParamError)))
-    else if func = 12 then some (a, none)
+    else if func = 11 then let (a, r) := handleFreezeAtTime a seq hs; some (a, some r)
+    else if func = 12 then let (a, _) := handleFreezeAtTime a seq hs; some (a, none)
     else if func = 20 then let (a, r) := handleEnableDisable a true seq hs; some (a, some r)
     else if func = 21 then let (a, r) := handleEnableDisable a false seq hs; some (a, some r)
     else some (a, some (emptySolicited seq iin2NoFunc))
@@ -557,7 +569,7 @@ def processBroadcast (a : Acc) (f : Frag) (mode : Nat) (ctrl : AppCtrl) (func : 
       | some (a, _) => done a
     else if func = 8 then done (handleFreeze a seq .immediate hs).1
     else if func = 10 then done (handleFreeze a seq .clear hs).1
-    else if func = 12 then done a
+    else if func = 12 then done (handleFreezeAtTime a seq hs).1
     else if func = 24 then done ({ a.1 with lastRecorded := some a.1.now }, a.2)
     else if func = 21 then done (handleEnableDisable a false seq hs).1
     else if func = 20 then done (handleEnableDisable a true seq hs).1
